@@ -80,7 +80,7 @@ claimed = {
    note="Where the docs explicitly document an error instead of a clamp both are accepted (never another value). Typed-nil item pointers are outside the statement (noted, not judged). Wire half: hsmsss.",
    technique="reference clamp model + recover-wrapped constructor fuzzing; wire observer (scripted peer log) for refused sends"),
  "C17": dict(level=E,
-   text="Outbound: a real secs1 connection transmits ~7k (quick) / 75k (thorough) messages (every body length 0..500/1000 plus block boundaries and 10-100 KiB bodies, every stream/function/W, both roles, device ids 0/1/0x7FFF, NAK-then-retransmit) to an independent SEMI E4 reference peer over loopback TCP; every transmission must parse as blocks 1..N of <=244 bytes with the right E-bit, device id, R-bit, header fields and 16-bit checksum, bodies concatenating to the SECS-II encoding. Inbound: 1024 / 24000 block sequences (one fault from 19 classes per message, incl. a retransmitted first block after a T4 gap, incl. blocks paced just inside T4 and foreign blocks inserted inside an open message, each followed by a clean sentinel) fed by the reference peer; handler deliveries must equal those of the reference E4 receiver model, the link must stay Selected, and every delivered message, retained by the handler, must still read the same at the end. Race build." + HELD,
+   text="Outbound: a real secs1 connection transmits ~7k (quick) / 75k (thorough) messages (every body length 0..500/1000 plus block boundaries and 10-100 KiB bodies, every stream/function/W, both roles, device ids 0/1/0x7FFF, NAK-then-retransmit) to an independent SEMI E4 reference peer over loopback TCP; every transmission must parse as blocks 1..N of <=244 bytes with the right E-bit, device id, R-bit, header fields and 16-bit checksum, bodies concatenating to the SECS-II encoding. Inbound: 1024 / 24000 block sequences (one fault from 20 classes per message, incl. a retransmitted first block after a T4 gap, a length character lowered so that the rest of the transmission - holding an ENQ and a valid block image - must be drained, incl. blocks paced just inside T4 and foreign blocks inserted inside an open message, each followed by a clean sentinel) fed by the reference peer; handler deliveries must equal those of the reference E4 receiver model, the link must stay Selected, and every delivered message, retained by the handler, must still read the same at the end. Race build." + HELD,
    note="Trusts harness/ref/e4 as the reading of SEMI E4 (block format, 9.4.4 receiver algorithm, handshake). 'Within T4'/'expired' rest on measured gaps (premise; forked model, discarded only when the branches disagree).",
    technique="reference-implementation peer: independent E4 codec + receiver model on the other end of a real secs1 link; delivery/byte oracle under the race detector"),
  "C18": dict(level=F,
